@@ -263,7 +263,11 @@ pub fn run_scenario(sc: &Value, ex: &mut Exec) -> usize {
     let scid = sc["sc"].clone();
     let mut cfg = Cfg::from_json(&sc["cfg"]);
     let root = ex.root.join(format!("sc{}", scid));
-    let _ = std::fs::remove_dir_all(&root);
+    // resume = continue in the directory a killed process left behind (C11)
+    let resume = sc.get("resume").and_then(|v| v.as_bool()).unwrap_or(false);
+    if !resume {
+        let _ = std::fs::remove_dir_all(&root);
+    }
     std::fs::create_dir_all(&root).unwrap();
     let errfile = ex.root.join(format!("errs-sc{}.txt", scid));
     let _ = std::fs::remove_file(&errfile);
@@ -272,6 +276,9 @@ pub fn run_scenario(sc: &Value, ex: &mut Exec) -> usize {
     let hh = h();
     hh.reset_bt();
     hh.arm_fault(None);
+    hh.fs_hits.store(0, Ordering::SeqCst);
+    hh.injected.store(0, Ordering::SeqCst);
+    hh.injected_names.lock().unwrap().clear();
     hh.autotick.store(0, Ordering::SeqCst);
     let virt = sc.get("virt").and_then(|v| v.as_bool()).unwrap_or(true);
     if virt {
@@ -289,7 +296,7 @@ pub fn run_scenario(sc: &Value, ex: &mut Exec) -> usize {
     } else {
         None
     };
-    let mut n = 0usize;
+    let mut n = sc.get("n0").and_then(|v| v.as_u64()).unwrap_or(0) as usize;
     let mut emit = |ex: &mut Exec, mut v: Value| {
         n += 1;
         v["sc"] = scid.clone();
@@ -313,10 +320,26 @@ pub fn run_scenario(sc: &Value, ex: &mut Exec) -> usize {
     if let Some(x) = sc.get("grp") {
         begin["grp"] = x.clone();
     }
-    emit(ex, begin);
+    if !resume {
+        emit(ex, begin);
+    } else {
+        // first observation after the kill, before anything is restarted
+        let dir = root.join(&cfg.subdir);
+        let mut o = obs::observe(&dir, &cfg, link.as_ref(), raw);
+        o["prev"] = json!([]);
+        o["moved"] = json!([]);
+        o["outside"] = json!([]);
+        o["pcur"] = json!("");
+        o["cur"] = json!(current_file(&dir, &cfg).unwrap_or_default());
+        emit(
+            ex,
+            json!({"ev": "Crashed", "ret": "ok", "retk": "ok", "o": true, "obs": o, "t": hh.get_clock(), "errs": [],
+                   "inj": 0, "injp": [], "faultleft": 0, "at": sc.get("crashed_at").cloned().unwrap_or(json!(""))}),
+        );
+    }
 
     let mut run = Run::none();
-    let mut next_id: u64 = 0;
+    let mut next_id: u64 = sc.get("id0").and_then(|v| v.as_u64()).unwrap_or(0);
     let mut old_fams: Vec<(PathBuf, Cfg)> = Vec::new();
     let mut moved: Vec<String> = Vec::new();
     let mut last_cur = String::new();
@@ -815,6 +838,18 @@ pub fn run_scenario(sc: &Value, ex: &mut Exec) -> usize {
             .format("%Y-%m-%d_%H-%M-%S")
             .to_string());
         ev["inj"] = json!(hh.injected.swap(0, Ordering::SeqCst));
+        ev["injp"] = json!(std::mem::take(&mut *hh.injected_names.lock().unwrap()));
+        ev["retk"] = json!(ret.split(':').next().unwrap_or("?"));
+        let faultleft: i64 = match hh.fault.lock().unwrap().clone() {
+            Some(p) => {
+                let c = *hh.fault_hits.lock().unwrap().get(&p.name).unwrap_or(&0);
+                let last = p.from + p.burst - 1; // last failing hit
+                last.saturating_sub(c.max(p.from - 1)) as i64
+            }
+            None => 0,
+        };
+        ev["faultleft"] = json!(faultleft);
+        ev["fshits"] = json!(hh.fs_hits.load(Ordering::SeqCst));
         ev["errs"] = json!(new_errs(&errfile, &mut errpos));
         if want_pts {
             ev["pts"] = json!(hh
